@@ -275,6 +275,12 @@ func checkISeq(ctx *pbt.Ctx, c ISeq) error {
 			ctx.Label("enriched")
 		}
 	}
+	for _, r := range recs {
+		if hasMarker(r.prefix) {
+			ctx.Label("marker:envelope-start-in-key-hash")
+			break
+		}
+	}
 	ctx.Labelf("inscriptions:%d", len(recs))
 	if reused > 0 {
 		ctx.Label("args-object-reused-and-edited")
@@ -314,7 +320,7 @@ func genItem(t *rapid.T) Item {
 func genISeq(t *rapid.T) ISeq {
 	c := ISeq{Cap: rapid.SampledFrom([]int{25, 26, 48, 128, 4096}).Draw(t, "cap")}
 	n := rapid.IntRange(2, 6).Draw(t, "steps")
-	hashes := [][]byte{gen.Bytes(t, 20, "hash0"), gen.Bytes(t, 20, "hash1")}
+	hashes := [][]byte{genFree(t, 20, "hash0"), genFree(t, 20, "hash1")}
 	for i := 0; i < n; i++ {
 		s := IStep{Item: genItem(t), PrefixHash: hashes[rapid.IntRange(0, 1).Draw(t, "hash")], Reuse: rapid.Bool().Draw(t, "reuse")}
 		if rapid.IntRange(0, 9).Draw(t, "via") < 6 {
@@ -357,8 +363,8 @@ func genISeq(t *rapid.T) ISeq {
 func TestInscribeSeq(t *testing.T) {
 	pbt.Run(t, pbt.Sub[ISeq]{
 		Name: "inscribe-seq", Quick: 36000, Thorough: 600000,
-		Gen:   genISeq,
-		Check: checkISeq,
+		Gen:      genISeq,
+		Check:    checkISeq,
 		EnumDesc: "InscribeSpecificOrdinal for every (number of inputs 1..4, chosen input, satoshi index first / middle / last) with input values 3, 5, 7, 11, followed by a plain Inscribe",
 		Enum: func(tier string, yield func(ISeq)) {
 			h := bytes.Repeat([]byte{0xb7}, 20)
